@@ -681,7 +681,8 @@ def fam_arc_transform(R, rot, mclass):
         R.path(ctx, nontrivial=True)
         if kind != 'ok':
             # an exception inside the arc branch: the property says transform() works for every invertible matrix -- replay a model of the path
-            r_, m_ = R.witness(ctx, 'exception-path')
+            from ..symx import check_sat as _cs
+            r_, dt_, m_ = _cs(ctx, (), 20000)     # an infeasible path (entered through an undecided branch) is not an error
             done = False
             if r_ == 'sat' and m_ is not None:
                 try:
